@@ -170,6 +170,7 @@ impl ToTokens for MatchArm<'_> {
         let ident = &field.local();
         let with_callable = &field.with_callable;
         let post_transform = field.post_transform.as_ref();
+        let ty = field.ty;
 
         // Errors include the location of the bad input, so we compute that here.
         // Fields that take multiple values add the index of the error for convenience,
@@ -219,6 +220,9 @@ impl ToTokens for MatchArm<'_> {
                             #ident = (true, __errors.handle(#extractor));
                         } else {
                             __errors.push(::darling::Error::duplicate_field(#name_str).with_span(&__inner));
+                            // The repeated item is still read, so that the mistakes inside it
+                            // are reported in the same pass; its value is discarded.
+                            let _: ::darling::export::Option<#ty> = __errors.handle(#extractor);
                         }
                     }
                 )
